@@ -2,24 +2,24 @@
 // numbers) from the gpython working tree: the table of ASSERTION SITES of py/, vm/ and
 // stdlib/builtin/ -- every place where the Go code can panic by construction:
 //
-//   assert : an unchecked type assertion x.(T)   (no comma-ok, not a type switch)
-//   panic  : an explicit panic(...)
-//   index  : an index expression  x[i]  with a non-constant index
-//   slice  : a slice expression   x[a:b] with a non-constant bound
+//	assert : an unchecked type assertion x.(T)   (no comma-ok, not a type switch)
+//	panic  : an explicit panic(...)
+//	index  : an index expression  x[i]  with a non-constant index
+//	slice  : a slice expression   x[a:b] with a non-constant bound
 //
 // together with the guard that dominates the site SYNTACTICALLY in the same function:
 //
-//   format   x is a variable filled by an earlier ParseTupleAndKeywords / ParseTuple call of the same
-//            function whose format is a string literal; the table records the format, the slot, the
-//            asserted Go type and whether the assertion sits under `if x != nil`.  Whether the
-//            format really guarantees the type is decided on the Lean side (Props.guarded_sites_safe).
-//   checked  an earlier comma-ok assertion or type switch on the same expression and type (asserts);
-//            for index/slice: the index is the variable of an enclosing `for i := range x` /
-//            `for i := 0; i < len(x)` loop, or the function compares against len(x) / calls
-//            IndexIntCheck / GetIndices before
-//   startup  an explicit panic inside init() or a Must* constructor: runs at package initialisation,
-//            not as the effect of a Python-level action
-//   none     nothing recognised: an OPEN OBLIGATION, attacked by the sweep of harness/c10.go
+//	format   x is a variable filled by an earlier ParseTupleAndKeywords / ParseTuple call of the same
+//	         function whose format is a string literal; the table records the format, the slot, the
+//	         asserted Go type and whether the assertion sits under `if x != nil`.  Whether the
+//	         format really guarantees the type is decided on the Lean side (Props.guarded_sites_safe).
+//	checked  an earlier comma-ok assertion or type switch on the same expression and type (asserts);
+//	         for index/slice: the index is the variable of an enclosing `for i := range x` /
+//	         `for i := 0; i < len(x)` loop, or the function compares against len(x) / calls
+//	         IndexIntCheck / GetIndices before
+//	startup  an explicit panic inside init() or a Must* constructor: runs at package initialisation,
+//	         not as the effect of a Python-level action
+//	none     nothing recognised: an OPEN OBLIGATION, attacked by the sweep of harness/c10.go
 //
 // go/parser + go/ast only (syntactic).  usage: assertsites <repo> <out.lean> <facts.json>
 package main
@@ -58,6 +58,12 @@ type site struct {
 	NoneChk bool   `json:"none_checked,omitempty"`
 	Dflt    string `json:"default_ty,omitempty"`
 	Self    bool   `json:"receiver_assert,omitempty"` // `self.(T)` on the first parameter of a method closure
+	RegType string `json:"registered_on,omitempty"`   // receiver guard: the closure is the Go function of a Method / Property stored in <RegType>.Dict[...]
+	RegKind string `json:"registered_as,omitempty"`   // "method" | "property"
+	GoType  string `json:"asserted_go_type,omitempty"`
+	TypeOf  string `json:"type_of_asserted,omitempty"` // the *Type variable the asserted Go type's Type() method returns
+	Others  int    `json:"other_go_types_of_that_type,omitempty"`
+	ResFn   string `json:"result_of,omitempty"` // result guard: x is the first result of a call of this function
 	Ordinal int    `json:"ordinal"`
 }
 
@@ -126,7 +132,15 @@ func calleeName(c *ast.CallExpr) string {
 }
 
 // analyse one function body (FuncDecl or the top-level closure of an init-time method table)
-func analyse(file, fname string, params *ast.FieldList, body *ast.BlockStmt, startup bool, out *[]site) {
+// typeOf: Go type (as written in an assertion, "String", "*File") -> the *Type variable its Type() method returns
+var typeOf = map[string]string{}
+
+// functions whose first result has a Go dynamic type proved in lean/GPy/C10 (Model.makeBool ...)
+var resultContracts = map[string]bool{"MakeBool": true}
+
+type reg struct{ typ, kind string }
+
+func analyse(file, fname string, params *ast.FieldList, body *ast.BlockStmt, startup bool, out *[]site, rg reg) {
 	if body == nil {
 		return
 	}
@@ -138,6 +152,7 @@ func analyse(file, fname string, params *ast.FieldList, body *ast.BlockStmt, sta
 	defaultTy := map[string]string{}         // `var x Object = T(...)`: the Go type of the default value
 	nilReturn := map[string]token.Pos{}      // `if x == nil { ...; return }`
 	indexChecked := token.NoPos              // first IndexIntCheck / GetIndices call
+	resultOf := map[string]fmtOut{}          // variable -> contract function whose first result it holds (format = function name)
 	firstParam := ""
 	if params != nil && len(params.List) > 0 && len(params.List[0].Names) > 0 {
 		firstParam = params.List[0].Names[0].Name
@@ -145,6 +160,15 @@ func analyse(file, fname string, params *ast.FieldList, body *ast.BlockStmt, sta
 	ast.Inspect(body, func(n ast.Node) bool {
 		switch x := n.(type) {
 		case *ast.AssignStmt:
+			if len(x.Lhs) >= 1 && len(x.Rhs) == 1 {
+				if ce, ok := x.Rhs[0].(*ast.CallExpr); ok && resultContracts[calleeName(ce)] {
+					if id, ok := x.Lhs[0].(*ast.Ident); ok {
+						resultOf[id.Name] = fmtOut{calleeName(ce), 0, x.End()}
+					}
+				} else if id, ok := x.Lhs[0].(*ast.Ident); ok {
+					delete(resultOf, id.Name) // re-assigned from something else
+				}
+			}
 			if len(x.Lhs) == 2 && len(x.Rhs) == 1 {
 				if ta, ok := x.Rhs[0].(*ast.TypeAssertExpr); ok && ta.Type != nil {
 					commaOK[ta] = true
@@ -283,6 +307,22 @@ func analyse(file, fname string, params *ast.FieldList, body *ast.BlockStmt, sta
 				}
 				if id.Name == firstParam && (firstParam == "self") {
 					s.Self = true
+					if rg.kind == "module" && s.Guard == "none" {
+						s.Guard, s.RegKind, s.GoType = "module", "module", text(x.Type)
+					}
+					if rg.typ != "" && s.Guard == "none" {
+						s.Guard, s.RegType, s.RegKind = "receiver", rg.typ, rg.kind
+						s.GoType = text(x.Type)
+						s.TypeOf = typeOf[s.GoType]
+						for k, v := range typeOf {
+							if v == rg.typ && k != s.GoType {
+								s.Others++
+							}
+						}
+					}
+				}
+				if o, ok := resultOf[id.Name]; ok && o.pos < x.Pos() && s.Guard == "none" {
+					s.Guard, s.ResFn = "result", o.format
 				}
 			}
 			if s.Guard == "none" {
@@ -356,6 +396,11 @@ func main() {
 	repo, outLean, outJSON := os.Args[1], os.Args[2], os.Args[3]
 	var sites []site
 	nfiles := 0
+	type parsed struct {
+		rel string
+		af  *ast.File
+	}
+	var all []parsed
 	for _, dir := range []string{"py", "vm", "stdlib/builtin"} {
 		files, err := filepath.Glob(filepath.Join(repo, dir, "*.go"))
 		if err != nil || len(files) == 0 {
@@ -371,7 +416,78 @@ func main() {
 				die("cannot parse %s: %v", f, err)
 			}
 			nfiles++
-			rel := dir + "/" + filepath.Base(f)
+			all = append(all, parsed{dir + "/" + filepath.Base(f), af})
+			// `func (x T) Type() *Type { return XType }`: the Python type of a Go type
+			for _, d := range af.Decls {
+				fd, ok := d.(*ast.FuncDecl)
+				if !ok || fd.Name.Name != "Type" || fd.Recv == nil || len(fd.Recv.List) != 1 || fd.Body == nil || len(fd.Body.List) != 1 {
+					continue
+				}
+				if rs, ok := fd.Body.List[0].(*ast.ReturnStmt); ok && len(rs.Results) == 1 {
+					if id, ok := rs.Results[0].(*ast.Ident); ok {
+						// (a value receiver gives *T the method too; a *T holding a value type is never built as an
+						// Object -- part of the representation hypothesis of Bind.receiver_struct -- but an assertion to
+						// *T when Type() is declared on T, as for ClassMethod, finds no entry here and stays open)
+						typeOf[text(fd.Recv.List[0].Type)] = id.Name
+					}
+				}
+			}
+		}
+	}
+	// the Go function of a Method / the accessors of a Property stored in <XType>.Dict[...] by init()
+	registered := func(st ast.Stmt, m map[*ast.FuncLit]reg) {
+		as, ok := st.(*ast.AssignStmt)
+		if !ok || len(as.Lhs) != 1 || len(as.Rhs) != 1 {
+			return
+		}
+		ix, ok := as.Lhs[0].(*ast.IndexExpr)
+		if !ok {
+			return
+		}
+		sel, ok := ix.X.(*ast.SelectorExpr)
+		if !ok || sel.Sel.Name != "Dict" {
+			return
+		}
+		tv, ok := sel.X.(*ast.Ident)
+		if !ok {
+			return
+		}
+		switch r := as.Rhs[0].(type) {
+		case *ast.CallExpr:
+			if n := calleeName(r); (n == "MustNewMethod" || n == "NewMethod") && len(r.Args) >= 2 {
+				if fl, ok := r.Args[1].(*ast.FuncLit); ok {
+					m[fl] = reg{tv.Name, "method"}
+				}
+			}
+		case *ast.UnaryExpr:
+			if cl, ok := r.X.(*ast.CompositeLit); ok && r.Op == token.AND && text(cl.Type) == "Property" {
+				for _, el := range cl.Elts {
+					if kv, ok := el.(*ast.KeyValueExpr); ok {
+						if fl, ok := kv.Value.(*ast.FuncLit); ok {
+							m[fl] = reg{tv.Name, "property"}
+						}
+					}
+				}
+			}
+		}
+	}
+	for _, pf := range all {
+		{
+			af, rel := pf.af, pf.rel
+			// named functions listed in a module's method table: []*py.Method{py.MustNewMethod("print", builtin_print, ...), ...}
+			moduleFns := map[string]bool{}
+			ast.Inspect(af, func(n ast.Node) bool {
+				if cl, ok := n.(*ast.CompositeLit); ok {
+					for _, el := range cl.Elts {
+						if ce, ok := el.(*ast.CallExpr); ok && (calleeName(ce) == "MustNewMethod" || calleeName(ce) == "NewMethod") && len(ce.Args) >= 2 {
+							if id, ok := ce.Args[1].(*ast.Ident); ok {
+								moduleFns[id.Name] = true
+							}
+						}
+					}
+				}
+				return true
+			})
 			for _, d := range af.Decls {
 				switch fd := d.(type) {
 				case *ast.FuncDecl:
@@ -390,8 +506,12 @@ func main() {
 							}
 							return true
 						})
+						regs := map[*ast.FuncLit]reg{}
+						for _, st := range fd.Body.List {
+							registered(st, regs)
+						}
 						for _, fl := range lits {
-							analyse(rel, "init·closure", fl.Type.Params, fl.Body, false, &sites)
+							analyse(rel, "init·closure", fl.Type.Params, fl.Body, false, &sites, regs[fl])
 						}
 						// the rest of init (closures removed) runs at start-up
 						stripped := &ast.BlockStmt{}
@@ -407,15 +527,19 @@ func main() {
 								stripped.List = append(stripped.List, st)
 							}
 						}
-						analyse(rel, name, fd.Type.Params, stripped, true, &sites)
+						analyse(rel, name, fd.Type.Params, stripped, true, &sites, reg{})
 						continue
 					}
-					analyse(rel, name, fd.Type.Params, fd.Body, startup, &sites)
+					rg := reg{}
+					if fd.Recv == nil && moduleFns[fd.Name.Name] {
+						rg = reg{"", "module"}
+					}
+					analyse(rel, name, fd.Type.Params, fd.Body, startup, &sites, rg)
 				case *ast.GenDecl:
 					// package-level `var X = func(...) {...}` and method tables in composite literals
 					ast.Inspect(fd, func(n ast.Node) bool {
 						if fl, ok := n.(*ast.FuncLit); ok {
-							analyse(rel, "var·closure", fl.Type.Params, fl.Body, false, &sites)
+							analyse(rel, "var·closure", fl.Type.Params, fl.Body, false, &sites, reg{})
 							return false
 						}
 						return true
@@ -483,6 +607,16 @@ func main() {
 					d = "(some ." + s.Dflt + ")"
 				}
 				g = fmt.Sprintf("(.format %s %d .%s %v %v %s)", leanChars(s.Format), s.Slot, s.Ty, s.NilChk, s.NoneChk, d)
+			case "receiver":
+				t := "none"
+				if s.TypeOf != "" {
+					t = "(some " + leanStr(s.TypeOf) + ")"
+				}
+				g = fmt.Sprintf("(.receiver %s %s %s %d)", leanStr(s.RegType), leanStr(s.GoType), t, s.Others)
+			case "module":
+				g = fmt.Sprintf("(.moduleSelf %s)", leanStr(s.GoType))
+			case "result":
+				g = fmt.Sprintf("(.result %s .%s)", leanStr(s.ResFn), s.Ty)
 			case "checked":
 				g = ".checked"
 			case "startup":
@@ -534,6 +668,19 @@ func main() {
 		}
 		fmt.Fprintf(&b, "  (%s, %s, %d, %d, %d, %d)%s\n", leanStr(k.file), leanStr(k.fn), c[0], c[1], c[2], c[3], sep)
 	}
+	b.WriteString("]\n\n/-- `func (x T) Type() *Type { return XType }`: Go type -> the variable holding its Python type -/\ndef goTypeOf : List (String × String) := [\n")
+	var tks []string
+	for k := range typeOf {
+		tks = append(tks, k)
+	}
+	sort.Strings(tks)
+	for i, k := range tks {
+		sep := ","
+		if i == len(tks)-1 {
+			sep = ""
+		}
+		fmt.Fprintf(&b, "  (%s, %s)%s\n", leanStr(k), leanStr(typeOf[k]), sep)
+	}
 	b.WriteString("]\n\nend GPy.C10.Generated\n")
 	old, _ := os.ReadFile(outLean)
 	if string(old) != b.String() {
@@ -543,7 +690,7 @@ func main() {
 	}
 	open := 0
 	for _, s := range ap {
-		if s.Guard == "none" {
+		if s.Guard == "none" || (s.Guard == "receiver" && (s.TypeOf != s.RegType || s.Others != 0)) {
 			open++
 		}
 	}
